@@ -1,15 +1,241 @@
-//! Profiles for C05, C10, C11, C18, C20.
+//! Profiles for C11 (I/O fault enumeration) and dispatch to the remaining ones.
 
-use crate::exec::{Exec, RunOut};
-use crate::rng::Rng;
+use crate::exec::{self, catch, check_exact_files, compare, Exec, RunOut};
+use crate::model::DocSpec;
+use crate::profiles2::harness_fail;
+use crate::rng::{derive, Rng};
+use crate::sched::{self, draw_strategy};
+use crate::simdir::{self, FailMode, FailSpec, TailMode};
 use crate::workload::*;
+use std::collections::BTreeSet;
+use tantivy::Index;
 
-pub fn gen_case3(prop: &str, _seed: u64, _thorough: bool, _rng: &mut Rng) -> Case {
-    panic!("HARNESS: no generator for {prop}");
+pub fn gen_case3(prop: &str, seed: u64, thorough: bool, rng: &mut Rng) -> Case {
+    match prop {
+        "C11" => {
+            let mut cfg = base_cfg(rng, Profile::Fault, thorough);
+            cfg.index_threads = cfg.index_threads.min(3);
+            cfg.faults.seed = rng.next_u64();
+            cfg.faults.torn = rng.chance(1, 2);
+            cfg.faults.lazy_reads = rng.chance(1, 3);
+            cfg.faults.short_write_pct = *rng.pick(&[0u32, 0, 3]);
+            cfg.strategy = draw_strategy(rng, &crate::profiles::CLASSES_ALL);
+            let mut g = Gen { rng: Rng::new(rng.next_u64()), next_uid: 1 };
+            let n = rng.range(3, 14) as usize;
+            let ops = gen_history(&mut g, &cfg, n, rng.chance(1, 2), true, true);
+            Case { seed, cfg, ops }
+        }
+        _ => crate::profiles4::gen_case4(prop, seed, thorough, rng),
+    }
 }
 
-pub fn body3(prop: &'static str, _case: &Case) -> RunOut {
-    crate::profiles2::harness_fail(format!("no body for {prop}"))
+/// The faulted variants of a base case: a fault at storage op k for sampled (quick) or every
+/// (thorough) k, in the flavours once / from k on / ENOSPC, plus thread-spawn failures.
+pub fn fault_variants(base: &Case, base_out: &RunOut, setup_ops: u64, thorough: bool) -> Vec<Case> {
+    let n = base_out.workload_ops.max(setup_ops + 1);
+    let mut rng = Rng::new(derive(base.seed, &[0xFA17]));
+    let mut ks: Vec<u64> = if thorough || n <= setup_ops + 24 {
+        (setup_ops..n).collect()
+    } else {
+        // stratified: one k in each of 24 equal slices of the op range
+        let span = n - setup_ops;
+        (0..24u64).map(|j| setup_ops + j * span / 24 + rng.below((span / 24).max(1))).collect()
+    };
+    ks.dedup();
+    let mut v = vec![];
+    for k in ks {
+        let modes: Vec<FailMode> = if thorough {
+            vec![FailMode::Once, FailMode::FromOn, FailMode::Enospc]
+        } else {
+            // quick: one flavour per point, rotating
+            vec![match rng.below(5) {
+                0 | 1 => FailMode::Once,
+                2 | 3 => FailMode::FromOn,
+                _ => FailMode::Enospc,
+            }]
+        };
+        for mode in modes {
+            let mut c = base.clone();
+            c.cfg.faults.fails = vec![FailSpec { at: k, mode }];
+            v.push(c);
+        }
+    }
+    // thread-spawn failures: spawn index counted from Index::create on
+    let sc = base_out.spawn_count;
+    let spawns: Vec<u64> = if thorough || sc <= 6 { (0..sc).collect() } else { (0..4).map(|_| rng.below(sc)).collect() };
+    for j in spawns {
+        let mut c = base.clone();
+        c.cfg.fail_spawn_at = Some(j);
+        v.push(c);
+    }
+    v
 }
 
-pub fn exec_special3(_e: &mut Exec, _op: &Op) {}
+pub fn body3(prop: &'static str, case: &Case) -> RunOut {
+    match prop {
+        "C11" => body_fault(case),
+        _ => crate::profiles4::body4(prop, case),
+    }
+}
+
+pub fn exec_special3(e: &mut Exec, op: &Op) {
+    crate::profiles4::exec_special4(e, op);
+}
+
+fn body_fault(case: &Case) -> RunOut {
+    let mut e = match Exec::new(case, "C11") {
+        Ok(e) => e,
+        Err(m) => {
+            // the very first writer may fail to start when a spawn failure is injected at index 0..
+            if case.cfg.fail_spawn_at.is_some() {
+                let mut o = RunOut::default();
+                o.probe("first_writer_failed_by_spawn_fault");
+                o.nontrivial = false;
+                return o;
+            }
+            return harness_fail(m);
+        }
+    };
+    e.fault_profile = true;
+    e.dir.arm(true);
+    e.run_ops();
+    let fired = e.dir.with(|s| s.first_fault_at.is_some());
+    let spawn_failed = case.cfg.fail_spawn_at.is_some();
+    e.out.nontrivial = fired || spawn_failed;
+    if fired {
+        e.out.probe("fault_fired");
+    }
+    if !e.out.api_errors.is_empty() {
+        e.out.probe("api_error_reported");
+    }
+    // ---- faults stop here ----
+    e.dir.arm(false);
+    tantivy::verif_sim::with_knobs(|k| k.fail_spawn_at = None);
+    sched::set_calm(true);
+    if !e.out.violations.is_empty() {
+        return e.finish();
+    }
+    recover_and_check(&mut e);
+    sched::set_calm(false);
+    e.finish()
+}
+
+/// After faults stopped: roll back or drop the writer, then the durable state must be one whole
+/// allowed commit, a new writer must work, and one more GC must restore the exact file set.
+pub fn recover_and_check(e: &mut Exec) {
+    let mut rng = Rng::new(derive(e.case.seed, &[0x2EC0]));
+    let had_error = e.stop;
+    e.stop = false;
+    e.pending_merges.clear();
+    // 1. the client reacts: rollback (keep the writer) or drop it
+    let use_rollback = rng.chance(1, 2);
+    let mut rolled_back = false;
+    if let Some(w) = e.writer.as_mut() {
+        if use_rollback {
+            match catch(|| w.rollback()) {
+                Err(p) => {
+                    e.out.violate("C11", "panic_on_calling_thread", format!("rollback after fault: {p}"));
+                    return;
+                }
+                Ok(Err(err)) => {
+                    // the client falls back to dropping the writer
+                    e.out.probe("rollback_failed_after_faults_stopped");
+                    e.out.api_errors.push(format!("rollback after faults stopped: {err}"));
+                }
+                Ok(Ok(_)) => {
+                    rolled_back = true;
+                    e.out.probe("recovered_by_rollback");
+                }
+            }
+        }
+    }
+    if !rolled_back {
+        if let Some(w) = e.writer.take() {
+            if let Err(p) = catch(|| drop(w)) {
+                e.out.violate("C11", "panic_on_calling_thread", format!("drop(writer) after fault: {p}"));
+                return;
+            }
+            e.out.probe("recovered_by_drop");
+        }
+    }
+    e.last_stamp = None;
+    e.txn_ops = 0;
+    // 2. durable / visible state is one whole allowed commit; resolve which one
+    let now = e.dir.op_count();
+    let allowed = e.allowed_at(now);
+    let img = e.dir.visible_at(now);
+    let m = match e.open_and_match(&img, &allowed) {
+        Ok(m) => m,
+        Err(msg) => {
+            e.out.violate("C11", "state_after_fault", format!("after the fault ({}), visible state: {msg}", e.dir.with(|s| format!("{:?}", s.first_fault_at))));
+            return;
+        }
+    };
+    // the minimal crash image must be an allowed commit too (nothing half-published)
+    let img_min = e.dir.image_at(now, TailMode::Minimal);
+    if let Err(msg) = e.open_and_match(&img_min, &allowed) {
+        e.out.violate("C11", "durable_state_after_fault", format!("minimal crash image after the fault: {msg}"));
+        return;
+    }
+    // every acknowledged commit was durable when it returned
+    let acked: Vec<(u64, usize)> =
+        e.commit_events.iter().filter(|ev| ev.ok).filter_map(|ev| ev.model_after.map(|m| (ev.end_seq, m))).collect();
+    for (end_seq, mm) in acked {
+        let im = e.dir.image_at(end_seq, TailMode::Minimal);
+        if let Err(msg) = e.open_and_match(&im, &[mm]) {
+            e.out.violate("C11", "acknowledged_commit_not_durable", format!("commit acknowledged at storage op {end_seq}: {msg}"));
+            return;
+        }
+    }
+    // checksums of the surviving state
+    {
+        let d = simdir::SimDir::from_image(&img, true);
+        match catch(|| Index::open(simdir::boxed(&d)).and_then(|i| i.validate_checksum())) {
+            Err(p) => {
+                e.out.violate("C11", "panic_on_calling_thread", format!("validate_checksum: {p}"));
+                return;
+            }
+            Ok(Err(x)) => {
+                e.out.violate("C11", "checksum_error_after_fault", x.to_string());
+                return;
+            }
+            Ok(Ok(damaged)) => {
+                if !damaged.is_empty() {
+                    e.out.violate("C11", "checksum_after_fault", format!("damaged files {damaged:?}"));
+                    return;
+                }
+            }
+        }
+    }
+    // the model continues from the state that actually survived
+    let st = e.model.commits[m].clone();
+    e.model.commits.push(st.clone());
+    e.model.live = st.docs.clone();
+    let _ = had_error;
+    // 3. a (new) writer continues indexing normally on the same storage
+    if e.writer.is_none() {
+        let cfg = e.case.cfg.clone();
+        match catch(|| exec::make_writer(&e.index, &cfg, 1)) {
+            Err(p) => {
+                e.out.violate("C11", "panic_on_calling_thread", format!("new writer after fault: {p}"));
+                return;
+            }
+            Ok(Err(err)) => {
+                e.out.violate("C11", "no_new_writer_after_fault", format!("{err} (first fault: {:?})", e.dir.with(|s| s.first_fault_at.clone())));
+                return;
+            }
+            Ok(Ok(w)) => e.writer = Some(w),
+        }
+    }
+    let extra = DocSpec { uid: 2_000_000, key: 0, body: vec![1, 2], tag: 1, sortv: Some(2), js: 1 };
+    e.exec_op(&Op::Add(extra));
+    e.fault_profile = false; // from here on any error is a violation
+    e.prop = "C11";
+    e.exec_op(&Op::Commit);
+    if !e.out.violations.is_empty() {
+        return;
+    }
+    // 4. bounded liveness: one more GC restores the exact file set
+    e.phase_quiesce(true);
+    let _ = (compare as fn(_, _, _) -> _, check_exact_files as fn(_, _, _) -> _, BTreeSet::<u8>::new());
+}
